@@ -69,6 +69,7 @@ type FuncContract struct {
 	Modifies   []string
 	HasMod     bool
 	NoPanic    bool
+	AllowExplicitPanic bool // nopanic covers run-time panics only; explicit panic() calls are programming-error guards
 	Pure       bool // result is an uninterpreted function of the arguments, no effects
 	Neutral    bool // no heap effects, result unconstrained
 	Ghosts     []GhostDecl
@@ -114,6 +115,7 @@ type SpecFile struct {
 	Funcs     []*FuncContract
 	SpecFuncs []*SpecFunc
 	Lemmas    []*Lemma
+	NonNilGlobals []string
 }
 
 var reLabel = regexp.MustCompile(`^@([A-Za-z0-9_\-\.]+)\s+`)
@@ -413,6 +415,9 @@ func parseSpecFile(path string, pkgPath string, raw bool) (*SpecFile, error) {
 				continue
 			case "package":
 				continue
+			case "nonnil":
+				sf.NonNilGlobals = append(sf.NonNilGlobals, strings.Fields(rest)...)
+				continue
 			default:
 				return nil, fail(i, "unknown top-level directive %q", word)
 			}
@@ -447,6 +452,9 @@ func parseSpecFile(path string, pkgPath string, raw bool) (*SpecFile, error) {
 			}
 		case "nopanic":
 			cur.NoPanic = true
+			if strings.Contains(rest, "implicit") {
+				cur.AllowExplicitPanic = true
+			}
 		case "pure":
 			cur.Pure = true
 		case "neutral":
